@@ -348,6 +348,7 @@ var c15Words = []string{"a", "b", "/", "a/", "/b", "*", "<", ">", "<b>", "</b>",
 var c15Spaces = []string{" ", "  ", "\t", "\n", "\r\n", "\r", " \n ", "\n\n", "\n\t", " \r\n  "}
 var c15Comments = []string{"//c\n", "// c d\r\n", "//\n", "// /* x */\n", "//c\r", "/*c*/", "/* c\n d */", "/* // */", "/*{x}*/", "/* * / */", "/*\n*/", "/**/", "/*/ hidden */", "/*//// banner ////*/", "/*/*/", "/***/", "/* a **/", "/*/ x /**/"}
 var c15Literals = []string{"", " x ", "a\n b", "{$q}", "// not a comment\n", "/* c */", "{sp}", "  ", "\n", "<b> {", "\u00e9\u00a0\n", "}{", "\t\r\n"}
+var c15LiteralBlanks = []string{"", "", " ", "\t", " \t  "}
 
 func c15RandStretch(r *hx.Rand) string {
 	var sb strings.Builder
@@ -385,7 +386,8 @@ func c15RandBody(r *hx.Rand, depth int, dead bool) []c15Tok {
 			}
 		case k < 9:
 			l := r.Pick(c15Literals)
-			toks = append(toks, mark(c15G("{literal}"+l+"{/literal}", l)))
+			bl := r.Pick(c15LiteralBlanks) // {literal  }: blanks before the brace of the opening tag
+			toks = append(toks, mark(c15G("{literal"+bl+"}"+l+"{/literal}", l)))
 		case k < 11 && depth > 0:
 			if r.Bool() {
 				toks = append(toks, mark(c15G("{if true}", "")))
@@ -525,6 +527,7 @@ func c15Templates(e *env) {
 	for _, l := range c15Literals {
 		cases = append(cases, c15Tmpl{c15Merge([]c15Tok{c15T(" a\n"), c15G("{literal}"+l+"{/literal}", l), c15T("\n b ")}), "tmpl:literal"})
 		cases = append(cases, c15Tmpl{c15Merge([]c15Tok{c15G("{literal}"+l+"{/literal}", l)}), "tmpl:literal"})
+		cases = append(cases, c15Tmpl{c15Merge([]c15Tok{c15T(" a\n"), c15G("{literal \t}"+l+"{/literal}", l), c15T("\n b ")}), "tmpl:literal-blanks"})
 	}
 	cases = append(cases, c15Tmpl{c15Merge([]c15Tok{c15G("{sp}", " "), c15G("{nil}", ""), c15G("{\\n}", "\n"), c15G("{\\r}", "\r"), c15G("{\\t}", "\t"), c15G("{lb}", "{"), c15G("{rb}", "}")}), "tmpl:special"})
 	// random bodies
